@@ -7,6 +7,13 @@ PY = "/venv/bin/python"
 
 # property id -> (design section, technique, level text, level note)
 BUILT = {
+    "C15": ("§4.15", "exhaustive enumeration of bounded directory trees x argument lists (and .gitignore variants) "
+            "through the real main(), against an os.walk-based reference model",
+            "Every tree of the alphabet (names with spaces/dots, look-alike suffixes, directories named like sources, "
+            "empty directories) with every argument list of length <= 2/3 over its paths, '.', a missing path and no "
+            "argument; verdict-line multiset, rejection messages and exit status must equal the model's.",
+            "Trusts the 15-line reference model and the gitignore semantics of the four patterns used; hidden files and "
+            "symlinks are outside the alphabet."),
     "C06": ("§4.6", "explicit-state search over histories of processed files with deduplication on a generic snapshot "
             "of the process-level state, each history run in a child forked from a pristine image; exhaustive "
             "permutation family of the rules-directory listing in fresh interpreters",
